@@ -250,7 +250,12 @@ class _CommonFile:
         existing = key in records
         records[key] = value
         if not existing:
-            self._source.append((_RECORD, key))
+            source = self._source
+            if source and source[-1][0] == _SKIPPED and not source[-1][1].endswith(b"\n"):
+                # file ended with an unterminated comment line: terminate it,
+                # otherwise the new record would be glued onto the comment and lost.
+                source[-1] = (_SKIPPED, source[-1][1] + b"\n")
+            source.append((_RECORD, key))
         return existing
 
     def _delete_record(self, key):
